@@ -112,10 +112,16 @@ class LocaleStub:
 
     def strcoll(self, a, b):
         self._note()
+        if '\0' in a or '\0' in b:        # as the real locale.strcoll (wchar_t* conversion)
+            self.raised = getattr(self, 'raised', 0) + 1
+            raise ValueError('embedded null character')
         return 0 if a == b else -1 if a < b else 1
 
     def strxfrm(self, s):
         self._note()
+        if '\0' in s:
+            self.raised = getattr(self, 'raised', 0) + 1
+            raise ValueError('embedded null character')
         return s
 
 
@@ -1603,6 +1609,202 @@ def compare_xml_text(run: Run, cases):
             compare_gate_routes(run, text, df, bool(must), et_outcomes)
 
 
+# ---- phase 5b: the C-library call itself fails (strcoll / strxfrm raise on an embedded NUL) -----------
+PRIM_TEMPLATES = [
+    ('compare', 'compare($a,$b,$c)'), ('contains', 'contains($a,$b,$c)'), ('starts-with', 'starts-with($a,$b,$c)'),
+    ('ends-with', 'ends-with($a,$b,$c)'), ('substring-before', 'substring-before($a,$b,$c)'),
+    ('substring-after', 'substring-after($a,$b,$c)'), ('index-of', "index-of(($a,'x'),$b,$c)"),
+    ('index-of-late', "index-of(('p','q',$a),$b,$c)"), ('distinct-values', 'distinct-values(($a,$b),$c)'),
+    ('distinct-values-late', "distinct-values(('p','q','p',$a,$b),$c)"), ('deep-equal', 'deep-equal(($a),($b),$c)'),
+    ('min', 'min(($a,$b),$c)'), ('max', 'max(($a,$b),$c)'), ('sort', 'sort(($a,$b),$c)'),
+    ('contains-token', 'contains-token($a,$b,$c)'), ('collation-key', 'collation-key($a,$c)'),
+    ('nested', "compare($a, string(compare('p','q',$c)), $c)"),
+    ('for', "for $x in ('p',$a) return compare($x,$b,$c)"),
+]
+NUL_STRINGS = ['x\0y', '\0', 'a\0', '\0z']
+
+
+def prim_eval(expr, variables):
+    import elementpath
+    from elementpath.xpath31 import XPath31Parser
+    try:
+        r = elementpath.select(root(), expr, parser=XPath31Parser, variables=variables)
+        return 'ok', r
+    except BaseException as e:
+        from elementpath.exceptions import ElementPathError
+        return ('ERR:' + type(e).__name__ if not isinstance(e, ElementPathError) else canon_exc(e)), None
+
+
+class _RealCounting:
+    """the real C library with the calls counted (no stub): which comparison raised"""
+    def __init__(self):
+        self.outcomes = []
+
+    def strcoll(self, a, b):
+        try:
+            r = _REAL_STRCOLL(a, b)
+        except BaseException:
+            self.outcomes.append('1')
+            raise
+        self.outcomes.append('0')
+        return r
+
+    def strxfrm(self, s):
+        try:
+            r = _REAL_STRXFRM(s)
+        except BaseException:
+            self.outcomes.append('1')
+            raise
+        self.outcomes.append('0')
+        return r
+
+
+def real_locales():
+    """LC_COLLATE names the real C library accepts here, other than the current one"""
+    cur = _REAL_SETLOCALE(locale.LC_COLLATE, None)
+    out = []
+    for n in ['C.UTF-8', 'C.utf8', 'POSIX', 'C', 'en_US.UTF-8', 'de_DE.UTF-8']:
+        if n == cur:
+            continue
+        try:
+            _REAL_SETLOCALE(locale.LC_COLLATE, n)
+            out.append(n)
+        except locale.Error:
+            pass
+        finally:
+            _REAL_SETLOCALE(locale.LC_COLLATE, cur)
+    return cur, out
+
+
+def _next_obs(kind, r):
+    if kind != 'ok':
+        return kind
+    r = r[0] if isinstance(r, list) and r else r
+    return 'ok:<0' if isinstance(r, int) and r < 0 else f'ok:{r!r}'
+
+
+def gen_prim_case(rng):
+    init = rng.choice(['C', 'C', 'POSIX', 'en_US.UTF-8', 'C.utf8', 'mylocale'])
+    loc = rng.choice([l for l in LOCALES + ['C.UTF-8'] if l != init])
+    if rng.random() < 0.3:
+        lang = rng.choice(['de', 'fr', 'C', 'it_IT', 'sv'])
+        coll = UCA + '?lang=' + lang + rng.choice(['', ';fallback=no', ';fallback=yes'])
+    else:
+        coll = loc
+    name, expr = rng.choice(PRIM_TEMPLATES)
+    nul = rng.choice(NUL_STRINGS)
+    pos = rng.choice('ab')
+    other = rng.choice(['z', 'p', ''])
+    variables = {'a': nul if pos == 'a' else other, 'b': nul if pos == 'b' else other, 'c': coll}
+    if rng.random() < 0.12:
+        variables[pos] = 'plain'             # control: nothing raises
+    extra = rng.sample(LOCALES, rng.choice([0, 1, 2]))
+    return {'init': init, 'coll': coll, 'extra': extra, 'fn': name, 'expr': expr, 'vars': variables, 'real': False}
+
+
+def compare_primitive_raises(run: Run, cases):
+    st = run.stats
+    site = 'collations.py CollationManager._locale_call (try/finally around locale.strcoll / strxfrm)'
+    obs = []
+    for c in cases:
+        v = c['vars']
+        if c['real']:
+            init, eff = c['init'], c['coll']
+            cnt = _RealCounting()
+            locale.strcoll, locale.strxfrm = cnt.strcoll, cnt.strxfrm
+            all0 = _REAL_SETLOCALE(locale.LC_ALL, None)
+            try:
+                kind, _ = prim_eval(c['expr'], v)
+                state = f'{int(lock_held())}#{enc(_REAL_SETLOCALE(locale.LC_COLLATE, None))}'
+                k2, r2 = prim_eval("compare('a','b',$c)", {'c': eff})
+                state2 = f'{int(lock_held())}#{enc(_REAL_SETLOCALE(locale.LC_COLLATE, None))}'
+                all1 = _REAL_SETLOCALE(locale.LC_ALL, None)
+            finally:
+                uninstall()
+                _REAL_SETLOCALE(locale.LC_COLLATE, init)        # a broken tree must not poison what follows
+            raises, avail = ''.join(cnt.outcomes), [init, eff]
+            nxt = _next_obs(k2, r2)
+        else:
+            m = impl_manager(c['coll'])
+            world0 = World(c['init'], [c['init']] + c['extra'])
+            eff = norm_name(m[0], world0) if not isinstance(m, str) and m[0] is not None else None
+            if eff is None or eff == c['init']:
+                st.count('prim:skipped-no-locale')
+                obs.append(None)
+                continue
+            avail = sorted({c['init'], eff, *c['extra']})
+            stub = LocaleStub(avail, c['init'], 'C')
+            install(stub)
+            all0 = _REAL_SETLOCALE(locale.LC_ALL, None)
+            try:
+                kind, _ = prim_eval(c['expr'], v)
+                state = f'{int(lock_held())}#{enc(stub.cur)}'
+                notes = [e for e in stub.log if e[0].startswith('@')]
+                raised = getattr(stub, 'raised', 0)
+                k2, r2 = prim_eval("compare('a','b',$c)", {'c': c['coll']})
+                state2 = f'{int(lock_held())}#{enc(stub.cur)}'
+                all1 = _REAL_SETLOCALE(locale.LC_ALL, None)
+            finally:
+                uninstall()
+            raises = '0' * (len(notes) - raised) + '1' * min(raised, 1)
+            init = c['init']
+            nxt = _next_obs(k2, r2)
+        obs.append((kind, state, nxt, state2, raises, avail, eff, init, all0 == all1))
+    lines, idx = [], []
+    for i, (c, o) in enumerate(zip(cases, obs)):
+        if o is None:
+            continue
+        kind, state, nxt, state2, raises, avail, eff, init, _ = o
+        lines.append(f'USER init={enc(init)} avail={";".join(enc(a) for a in avail)} eff={enc(eff)} raises={raises or "0"}')
+        idx.append(i)
+    answers = run.driver('C19', lines)
+    for i, ans in zip(idx, answers):
+        c, (kind, state, nxt, state2, raises, avail, eff, init, all_same) = cases[i], obs[i]
+        case = {'op': 'primitive-raises', 'init': init, 'avail': avail, 'collation': c['coll'], 'expr': c['expr'],
+                'variables': c['vars'], 'real_c_library': c['real']}
+        if not ans.startswith('model='):
+            run.disagree(Disagreement(case, 'driver:' + ans, what='protocol'))
+            continue
+        fs = dict(kv.split('=', 1) for kv in ans.split(' '))
+        st.case(case, nontrivial='1' in raises)
+        st.count('prim:fn=' + c['fn'])
+        st.count('prim:' + ('real-c-library' if c['real'] else 'stub'))
+        st.count('prim:outcome=' + kind)
+        st.count('prim:comparisons-before-the-raise=' + (str(raises.index('1')) if '1' in raises else 'no-raise:' + str(len(raises))))
+        if kind.startswith('ERR:') and not kind.startswith('ERR:FO') and not kind.startswith('ERR:XP'):
+            st.count('prim:bare-python-exception(reported-only)')
+        mk = fs['model'].split('#', 1)
+        good_next = f'ok:<0#0#{enc(init)}'
+        impl = f'{kind}#{state}|next={nxt}#{state2}'
+        model = f'{fs["model"]}|next={good_next}'
+        spec = f'{kind}#{fs["spec"]}|next={good_next}'
+        if impl != model or impl != spec:
+            run.disagree(Disagreement(case, impl, model, spec=spec, what='locale-after-raising-primitive', site=site))
+        if not all_same:
+            run.disagree(Disagreement(dict(case, part='LC_ALL'), 'changed', 'same', spec='same',
+                                      what='setlocale(LC_ALL)-after-raising-primitive', site=site))
+
+
+def correspond_primitive(run: Run):
+    rng = run.rng
+    cases = []
+    for name, expr in PRIM_TEMPLATES:          # seed corpus: every function, NUL on either side, stub world C / C.UTF-8
+        for pos in 'ab':
+            v = {'a': 'z', 'b': 'z', 'c': 'C.UTF-8'}
+            v[pos] = 'x\0y'
+            cases.append({'init': 'C', 'coll': 'C.UTF-8', 'extra': [], 'fn': name, 'expr': expr, 'vars': v, 'real': False})
+    cases += [gen_prim_case(rng) for _ in range(run.scale(150, 2000))]
+    cur, locs = real_locales()
+    run.stats.extra['real_locales_for_primitive_raises'] = {'current': cur, 'other': locs}
+    for loc in locs[:3]:
+        for name, expr in PRIM_TEMPLATES:
+            for pos in 'ab':
+                v = {'a': 'z', 'b': 'p', 'c': loc}
+                v[pos] = rng.choice(NUL_STRINGS)
+                cases.append({'init': cur, 'coll': loc, 'extra': [], 'fn': name, 'expr': expr, 'vars': v, 'real': True})
+    compare_primitive_raises(run, cases)
+
+
 # ---- phase 5: the XML declaration's pseudo-attributes (XmlDecl.parse / scanPrologX) ------------------
 DECL_ENC = {'ok': ['utf-8', 'UTF-8', 'Utf-8', 'US-ASCII', 'iso-8859-1', 'latin-1', 'ascii', 'cp1252', 'utf8', 'LATIN1'],
             'wrong': ['UTF-16', 'utf-16'],
@@ -2473,7 +2675,7 @@ def arm_deadline(run: Run):
 
 def body(run: Run) -> int:
     if getattr(run, 'replay', None):
-        run.prove(['EPV.Props.C19', 'EPV.Props.C19Defaults', 'EPV.Props.C19XmlDecl'],
+        run.prove(['EPV.Props.C19', 'EPV.Props.C19Defaults', 'EPV.Props.C19XmlDecl', 'EPV.Props.C19CollRaise'],
                   ['EPV.Spec.GlobalsSpec', 'EPV.Spec.GlobalsXmlDeclSpec'])
         return replay(run, run.replay)
     try:
@@ -2504,17 +2706,24 @@ def body(run: Run) -> int:
         'outcome, lock, LC_COLLATE, setlocale request log, decimal context, os.environ vs model and spec. '
         'threads: 2..8 threads x 1..4 Selector evaluations, concurrent and sequential. gates: '
         'environment-variable on random environments, parse-xml(-fragment) on structured prologs. '
+        'raising C-library call: 18 expression shapes over the collation-taking functions with an operand containing '
+        'U+0000 passed through a variable (either side, also after successful comparisons), bare-locale and UCA '
+        'collations whose locale is installed and differs from the current one, on the stub and on the real C library '
+        '(locales of this machine): outcome, lock, LC_COLLATE, setlocale(LC_ALL) after the raising call and after a '
+        'following ordinary call vs CollRaise.useMany and spec. '
         'XML declarations: derivations of the grammar [23]-[32],[80],[81] (random S, quotes, version numbers incl. '
         'non-grammatical ones, 24 encoding names of 4 classes, standalone) and 15 kinds of near miss, followed by a '
         'root / external DOCTYPE / entity-declaring tail: expat XmlDeclHandler values = XmlDecl.parse = derivation, '
         'fn:parse-xml outcome = parseXmlTextX. '
         'distinct = distinct (world, history) / thread / gate cases')
-    run.prove(['EPV.Props.C19', 'EPV.Props.C19Defaults', 'EPV.Props.C19XmlDecl'],
+    run.prove(['EPV.Props.C19', 'EPV.Props.C19Defaults', 'EPV.Props.C19XmlDecl', 'EPV.Props.C19CollRaise'],
                   ['EPV.Spec.GlobalsSpec', 'EPV.Spec.GlobalsXmlDeclSpec'])
     arm_deadline(run)       # after the build: waiting for the shared lake lock is not the check's time
     try:
         correspond_histories(run)
         run.log('histories done', run.stats.evaluations)
+        correspond_primitive(run)
+        run.log('raising-primitive cases done', run.stats.evaluations)
         correspond_gates(run)
         run.log('gates done', run.stats.evaluations)
         correspond_threads(run)
